@@ -8,6 +8,7 @@ mod codec;
 mod lru;
 mod pick;
 mod score;
+mod seekcheck;
 mod c09;
 mod sched;
 mod c12;
